@@ -48,11 +48,25 @@ const libFirst = "LIBDATA"
 
 // runCrafted: handshake, the library writes libFirst, the peer sends `prefix` honest records, then
 // the crafted record(s), then an honest record "AFTER", then waits for the library's reaction.
+// halfClosed: the library endpoint has already sent its close_notify (CloseWrite) and keeps reading
+// when the crafted record arrives.
+var halfClosed = false
+
 func runCrafted(suite uint16, libIsClient bool, prefix int, cr crafted) (*tlsk.RefOutcome, []byte) {
+	return runCraftedHC(suite, libIsClient, prefix, cr, false)
+}
+
+func runCraftedHC(suite uint16, libIsClient bool, prefix int, cr crafted, hc bool) (*tlsk.RefOutcome, []byte) {
 	var pre []byte
 	data := func(q *gmref.Peer) error {
 		if err := q.ReadApp(len(libFirst)); err != nil {
 			return err
+		}
+		if hc {
+			// wait for the library's close_notify so that its half-closed state is certain
+			if err := q.ReadApp(0); err != gmref.ErrClosed {
+				return fmt.Errorf("expected the library's close_notify, got %v", err)
+			}
 		}
 		for i := 0; i < prefix; i++ {
 			m := []byte(fmt.Sprintf("OK%d.", i))
@@ -71,7 +85,7 @@ func runCrafted(suite uint16, libIsClient bool, prefix int, cr crafted) (*tlsk.R
 			return err
 		}
 		err := q.ReadApp(0)
-		if err == gmref.ErrClosed || err == io.EOF {
+		if err == gmref.ErrClosed || err == io.EOF || (hc && err == io.ErrUnexpectedEOF) {
 			return nil
 		}
 		return err
@@ -80,7 +94,7 @@ func runCrafted(suite uint16, libIsClient bool, prefix int, cr crafted) (*tlsk.R
 	if !libIsClient {
 		id = gmref.Identity{}
 	}
-	o := tlsk.RunLibVsRef(libConfig(suite, libIsClient), libIsClient, tlsk.App{Writes: [][]byte{[]byte(libFirst)}}, id, 53, func(q *gmref.Peer) { q.Suites = []uint16{suite} }, &gmref.Script{Data: data}, nil)
+	o := tlsk.RunLibVsRef(libConfig(suite, libIsClient), libIsClient, tlsk.App{Writes: [][]byte{[]byte(libFirst)}, CloseWriteAfterWrites: hc}, id, 53, func(q *gmref.Peer) { q.Suites = []uint16{suite} }, &gmref.Script{Data: data}, nil)
 	return o, pre
 }
 
@@ -295,6 +309,13 @@ func refCraftedUnit(suite uint16, libIsClient bool, part, parts int) harness.Uni
 				}
 				o, pre := runCrafted(suite, libIsClient, prefix, cr)
 				judgeCrafted(c, suite, libIsClient, prefix, cr, o, pre, alerts)
+				if prefix == 2 && !(len(cr.name) > 14 && cr.name[:14] == "padding length") {
+					// the same against a receiver that has already sent its close_notify (CloseWrite)
+					hcr := cr
+					hcr.name = cr.name + " [receiver half-closed]"
+					o, pre := runCraftedHC(suite, libIsClient, prefix, cr, true)
+					judgeCrafted(c, suite, libIsClient, prefix, hcr, o, pre, map[string]map[byte]bool{})
+				}
 			}
 		}
 		// no padding oracle: a bad padding and a bad MAC must be answered identically
@@ -349,7 +370,19 @@ func refReceiveUnit(suite uint16, libIsClient bool, thorough bool) harness.Unit 
 		for n := 0; n <= top; n++ {
 			sizes = append(sizes, n)
 		}
-		sizes = append(sizes, 1023, 1024, 1025, 4095, 4096, 4097, 16383, 16384, 16385, 16400, 20000, 32768, 32769, 50000)
+		if !thorough {
+			for n := 601; n <= 1100; n++ {
+				sizes = append(sizes, n)
+			}
+		}
+		for k := uint(11); k <= 14; k++ {
+			for n := 1<<k - 40; n <= 1<<k+8; n++ {
+				if n > top || !thorough {
+					sizes = append(sizes, n)
+				}
+			}
+		}
+		sizes = append(sizes, 16400, 20000, 32768, 32769, 50000)
 		if thorough {
 			for n := 4300; n < 16384; n += 97 {
 				sizes = append(sizes, n)
